@@ -24,7 +24,13 @@ var verifDir = func() string {
 	return "/verif"
 }()
 
-const repoDir = "/repo"
+// repoDir is /repo; the development aid seed_eval.sh points it at a scratch worktree instead.
+var repoDir = func() string {
+	if d := os.Getenv("VERIF_REPO"); d != "" {
+		return d
+	}
+	return "/repo"
+}()
 
 type runSpec struct {
 	Harness  string         `json:"harness"`
@@ -58,6 +64,8 @@ type finding struct {
 	Signature string `json:"signature"`
 	What      string `json:"what"`
 	Commit    string `json:"commit,omitempty"`
+	Gran      *int   `json:"gran,omitempty"` // when set, the entry only applies to runs at this granularity
+	P         *int   `json:"P,omitempty"`    // ... and this preemption bound
 }
 
 type findingsFile struct {
@@ -185,7 +193,7 @@ func checkCmd(args []string) int {
 		sort.Strings(sigs)
 		for _, sig := range sigs {
 			if len(rs.Labels) > 0 {
-				mine := false
+				mine := bySig[sig][0].Label == "harness-main-blocked"
 				for _, l := range rs.Labels {
 					if bySig[sig][0].Label == l {
 						mine = true
@@ -199,7 +207,8 @@ func checkCmd(args []string) int {
 			var kf *finding
 			for i := range ff.Findings {
 				f := &ff.Findings[i]
-				if f.Property == prop && f.Status == "open" && f.Harness == rs.Harness && f.Signature == sig {
+				if f.Property == prop && f.Status == "open" && f.Harness == rs.Harness && f.Signature == sig &&
+					(f.Gran == nil || *f.Gran == rs.Gran) && (f.P == nil || *f.P == rs.P) {
 					kf = f
 				}
 			}
@@ -211,7 +220,7 @@ func checkCmd(args []string) int {
 			}
 			v := bySig[sig][0]
 			nReplay++
-			path := filepath.Join(verifDir, "replay", fmt.Sprintf("%s-%s-%d.json", prop, rs.Harness, nReplay))
+			path := filepath.Join(outDir(), "replay", fmt.Sprintf("%s-%s-%d.json", prop, rs.Harness, nReplay))
 			writeReplay(path, prop, v, cfg)
 			mode := rs.Native
 			if mode == "" {
@@ -247,6 +256,15 @@ func checkCmd(args []string) int {
 }
 
 var evidenceExtra map[string]interface{}
+
+// outDir is where evidence and replay files go: /verif, unless the development aid seed_eval.sh
+// redirects them so that runs against seeded changes do not overwrite the committed evidence.
+func outDir() string {
+	if d := os.Getenv("VERIF_OUT"); d != "" {
+		return d
+	}
+	return verifDir
+}
 
 func firstLine(s string) string {
 	s = strings.TrimSpace(s)
@@ -453,8 +471,8 @@ func writeEvidence(prop, tier string, seed int, spec *propSpec, runs []runSpec, 
 		"assumptions": spec.Assumptions, "wall_s": wall.Seconds(), "violations": nViol,
 	}
 	b, _ := json.MarshalIndent(ev, "", " ")
-	os.MkdirAll(filepath.Join(verifDir, "evidence"), 0o755)
-	os.WriteFile(filepath.Join(verifDir, "evidence", prop+".json"), b, 0o644)
+	os.MkdirAll(filepath.Join(outDir(), "evidence"), 0o755)
+	os.WriteFile(filepath.Join(outDir(), "evidence", prop+".json"), b, 0o644)
 }
 
 // replayCmd re-runs a recorded counterexample natively and prints the outcome.
